@@ -221,6 +221,20 @@ Error query_rw_info(const BaseInst& inst, const Operand_* operands, size_t op_co
     }
   }
 
+  // TBL/TBX - operands [1..op_count-2] form the table, a list of 1..4 vector registers that the instruction encodes by the first
+  // one only, so they must be allocated to consecutive registers (the same contract as LDn/STn lists).
+  if ((real_id == Inst::kIdTbl_v || real_id == Inst::kIdTbx_v) && op_count >= 4u && op_count <= 6u) {
+    uint32_t list_count = uint32_t(op_count) - 2u;
+    if (operands[1].is_reg()) {
+      out->_operands[1]._consecutive_lead_count = uint8_t(list_count);
+    }
+    for (uint32_t i = 2u; i <= list_count; i++) {
+      if (operands[i].is_reg()) {
+        out->_operands[i].add_op_flags(OpRWFlags::kConsecutive);
+      }
+    }
+  }
+
   return Error::kOk;
 }
 #endif // !ASMJIT_NO_INTROSPECTION
